@@ -110,6 +110,50 @@ func lateStore(env *e2elib.Env, tlsOn bool, backend, transport string, fail func
 	}
 }
 
+// reval304Entity: store, expiry, a revalidation answered by a 304 that carries body-describing header fields of its own
+// (Content-Length: 0, another Content-Type). The revalidated answer and the following hit are still the stored version:
+// complete body, its length, its type.
+func reval304Entity(env *e2elib.Env, tlsOn bool, backend, transport string, fail func(failure)) {
+	body := mkBody(98, 1, 700)
+	env.Origin.SetHandler(func(req e2elib.OriginRequest, n int) e2elib.Answer {
+		if req.Header.Get("If-None-Match") != "" || req.Header.Get("If-Modified-Since") != "" {
+			return e2elib.NewAnswer(304, nil, `ETag: "r98v1"`, "Content-Length: 0", "Content-Type: text/html", "Cache-Control: max-age=60")
+		}
+		return e2elib.NewAnswer(200, body, "Cache-Control: max-age=60", `ETag: "r98v1"`, "Content-Type: application/x-r98v1")
+	})
+	do := func() (*e2elib.Response, error) {
+		if tlsOn {
+			c, _, err := env.DialTunnel(env.Origin.Addr, "127.0.0.1", 8*time.Second)
+			if err != nil {
+				return nil, err
+			}
+			defer c.Close()
+			c.Send(env.TunnelRequest("GET", "/reval304", nil, nil), 5*time.Second)
+			return c.Read("GET", 10*time.Second)
+		}
+		return env.DoPlain(env.PlainRequest("GET", "/reval304", nil, nil), "GET", 10*time.Second)
+	}
+	if r1, err := do(); err != nil || r1.Status != 200 {
+		return
+	}
+	env.Proxy.VerifCache().VerifAge(2 * time.Hour)
+	for i, what := range []string{"the revalidated answer", "the hit after the revalidation"} {
+		r, err := do()
+		det := map[string]any{"step": i + 2}
+		if err != nil {
+			fail(failure{"revalidated-entry-damaged", backend, transport, what + ": no response: " + err.Error(), det})
+			return
+		}
+		det["status"], det["content_type"], det["content_length"], det["body_bytes"], det["body_error"], det["x_cache"] =
+			r.Status, r.Header.Get("Content-Type"), r.Header.Get("Content-Length"), len(r.Body), r.BodyErr, r.Header.Get("X-Cache")
+		if r.Status != 200 || r.BodyErr != "" || string(r.Body) != string(body) || r.Header.Get("Content-Type") != "application/x-r98v1" ||
+			(r.Header.Get("Content-Length") != "" && r.Header.Get("Content-Length") != fmt.Sprint(len(body))) {
+			fail(failure{"revalidated-entry-damaged", backend, transport, what + " is not the stored version (complete body, its own length and type) after a 304 that described its own empty body", det})
+			return
+		}
+	}
+}
+
 func main() {
 	flag.Parse()
 	e2elib.Quiet()
@@ -158,6 +202,10 @@ func main() {
 				v := int(version[res].Load())
 				etag := fmt.Sprintf("\"r%dv%d\"", res, v)
 				if inm := req.Header.Get("If-None-Match"); inm == etag {
+					if (res+v)%2 == 0 {
+						// a 304 that describes ITS OWN (empty) body: none of that is about the stored representation
+						return e2elib.NewAnswer(304, nil, "ETag: "+etag, "Content-Length: 0", "Content-Type: text/html")
+					}
 					return e2elib.NewAnswer(304, nil, "ETag: "+etag)
 				}
 				a := e2elib.NewAnswer(200, mkBody(res, v, sizeOf(res, v)), "Cache-Control: max-age=60", "ETag: "+etag,
@@ -168,6 +216,7 @@ func main() {
 				return a
 			}
 			lateStore(env, tlsOn, backend, transport, fail)
+			reval304Entity(env, tlsOn, backend, transport, fail)
 			env.Origin.SetHandler(mainHandler)
 			stop := time.Now().Add(dur)
 			var wg sync.WaitGroup
@@ -197,7 +246,7 @@ func main() {
 						startFloor := floor[res].Load()
 						var hs []string
 						a, b := -1, -1
-						if rr.Chance(35) {
+						if res >= nres/2 && rr.Chance(45) { // the lower half of the resources never sees a Range request (see below)
 							a = rr.Intn(150)
 							b = a + rr.Intn(150)
 							hs = append(hs, fmt.Sprintf("Range: bytes=%d-%d", a, b))
@@ -263,7 +312,13 @@ func main() {
 						// no resurrection: the version served must not be older than one some client had already fully received
 						// before this request started
 						if int64(ever) < startFloor {
-							fail(failure{"replaced-version-served-again", backend, transport, fmt.Sprintf("request started after version %d had been served, but received the replaced version %d", startFloor, ever), det})
+							kind := "replaced-version-served-again"
+							if res < nres/2 {
+								// every fetch of this resource went through the per-key coalescing: no older fetch can have
+								// been in flight next to a newer one, the known late-store history does not explain this
+								kind = "replaced-version-served-again-without-uncoalesced-fetch"
+							}
+							fail(failure{kind, backend, transport, fmt.Sprintf("request started after version %d had been served, but received the replaced version %d", startFloor, ever), det})
 						}
 						for {
 							cur := floor[res].Load()
@@ -283,7 +338,7 @@ func main() {
 	}
 	out := map[string]any{
 		"harness": "e2e01", "seed": *flagSeed, "tier": *flagTier, "total": total, "distinct": total, "distinct_nontrivial": total,
-		"rule":         "4 versioned self-describing resources (checksummed bodies, per-version ETag and Content-Type, sized or chunked) behind the real proxy with a 9 kB cache limit; 6 concurrent clients issuing GETs and Range requests while versions change, entries are aged stale (revalidation 304/200), cleanup cycles and evictions run; x backends {memory,file} x transports {plain,CONNECT}. Each 200/206 with validators must be one complete version (or the announced slice) with that version's length and Content-Type; no client receives a version older than one fully received before its request started",
+		"rule":         "4 versioned self-describing resources (checksummed bodies, per-version ETag and Content-Type, sized or chunked) behind the real proxy with a 9 kB cache limit; 6 concurrent clients issuing GETs and (on resources 2-3 only) Range requests while versions change, entries are aged stale (revalidation 304/200), cleanup cycles and evictions run; x backends {memory,file} x transports {plain,CONNECT}. Each 200/206 with validators must be one complete version (or the announced slice) with that version's length and Content-Type; no client receives a version older than one fully received before its request started",
 		"distribution": map[string]any{"env": dist, "responses": map[string]int64{"all": responses, "with_validators_checked": fromStore, "partial": partials}},
 		"samples":      []any{map[string]any{"backend": "file", "transport": "connect"}},
 		"files":        []string{}, "readable": []any{},
